@@ -86,7 +86,9 @@ Inductive err :=
 | E_deref_multi | E_deref_none | E_deref_mut_multi | E_deref_mut_none
 | E_into_reset_type | E_into_no_field | E_into_no_impl | E_into_multi
 | E_rank_reuse
-| E_discriminant.
+| E_discriminant
+| E_not_integer           (* "not an integer" (common/int.rs, discriminant_type.rs) *)
+| E_int_parse.            (* a core::num::ParseIntError message *)
 
 Inductive outcome (A : Type) :=
 | Ok (a : A)
